@@ -1,5 +1,5 @@
 use crate::{
-    geometry::{angle_consts::*, Angle, Point},
+    geometry::{angle_consts::*, Angle, Point, PointExt},
     primitives::common::{LineSide, OriginLinearEquation, PointType},
 };
 
@@ -78,6 +78,25 @@ impl PlaneSector {
     pub fn contains(&self, point: Point) -> bool {
         let correct_side_1 = self.half_plane_left.check_side(point, LineSide::Left);
         let correct_side_2 = self.half_plane_right.check_side(point, LineSide::Right);
+
+        // The intersection of the two half planes degenerates to the entire line through the
+        // origin if the half plane normals are parallel and point in the same direction, which
+        // happens for sweep angles that are zero or too small to be resolved. Only points in the
+        // direction of the sector, i.e. on the same side as the bisector of both boundary rays,
+        // are part of the sector. For normals with a positive dot product that aren't parallel
+        // this is true for all points inside the intersection.
+        if self.operation == Operation::Intersection {
+            let left = self.half_plane_left.normal_vector;
+            let right = self.half_plane_right.normal_vector;
+
+            if left.dot_product(right) > 0 {
+                let bisector = Point::new(left.y + right.y, -(left.x + right.x));
+
+                if point.dot_product(bisector) < 0 {
+                    return false;
+                }
+            }
+        }
 
         self.operation.execute(correct_side_1, correct_side_2)
     }
